@@ -341,3 +341,427 @@ Proof.
         rewrite <- EK. unfold kept. rewrite strip_run_filter. apply NoDup_keys_filter. exact Hnd. }
     rewrite MM, E. reflexivity.
 Qed.
+
+(* ----- local-config and validation read through the strip ----- *)
+
+From KV Require Import Res.GeneratorsProofs.
+
+Lemma dict_get_some_in k v (a : Generators.dict) : Generators.dict_get k a = Some v -> In (k, v) a.
+Proof.
+  induction a as [|[k' v'] t IH]; cbn; [discriminate|].
+  destruct (String.eqb k k') eqn:E; [|auto]. apply String.eqb_eq in E. subst. intros H. inv H. auto.
+Qed.
+
+Lemma dict_get_in k v (a : Generators.dict) : NoDup (map fst a) -> In (k, v) a -> Generators.dict_get k a = Some v.
+Proof.
+  induction a as [|[k' v'] t IH]; cbn; intros N H; [destruct H|]. inv N.
+  destruct H as [H|H].
+  - inv H. rewrite String.eqb_refl. reflexivity.
+  - destruct (String.eqb k k') eqn:E; [|auto]. apply String.eqb_eq in E. subst.
+    exfalso. apply H2. apply in_map_iff. exists (k', v). auto.
+Qed.
+
+Lemma dict_get_same_members k (a b : Generators.dict) :
+  NoDup (map fst a) -> NoDup (map fst b) -> (forall v, In (k, v) a <-> In (k, v) b) ->
+  Generators.dict_get k a = Generators.dict_get k b.
+Proof.
+  intros Na Nb H. destruct (Generators.dict_get k a) as [v|] eqn:Ea.
+  - symmetry. apply dict_get_in; [exact Nb|]. apply H. apply dict_get_some_in. exact Ea.
+  - destruct (Generators.dict_get k b) as [v|] eqn:Eb; [|reflexivity].
+    apply dict_get_some_in in Eb. apply H in Eb. rewrite (dict_get_in _ _ _ Na Eb) in Ea. discriminate.
+Qed.
+
+Lemma local_pairs n : node_pairs (meta_field "annotations" n) = Generators.dict_of_pairs (annos_of n).
+Proof.
+  unfold meta_field, annos_of. destruct (get_meta n) as [md|]; [|reflexivity].
+  destruct md as [t s v|mkvs|es]; try reflexivity.
+  destruct (find_field "annotations" mkvs) as [x|]; [|reflexivity].
+  destruct x; reflexivity.
+Qed.
+
+Definition local_key : string := "config.kubernetes.io/local-config".
+
+Lemma local_key_kept : str_in local_key strip_keys = false.
+Proof. vm_compute. reflexivity. Qed.
+
+Lemma is_local_stripped n : meta_clean n -> is_local (strip_node n) = is_local n.
+Proof.
+  intros [Honce Hnd]. unfold is_local. rewrite !local_pairs, (annos_of_stripped n Honce).
+  unfold Generators.dict_of_pairs. rewrite !dict_get_override. cbn [Generators.dict_get].
+  fold local_key.
+  replace (Generators.dict_get local_key (rev (Labels.sort_pairs (Hygiene.strip_run [] (annos_of n)))))
+    with (Generators.dict_get local_key (rev (annos_of n))); [reflexivity|].
+  assert (Nf : NoDup (map fst (Hygiene.strip_run [] (annos_of n)))).
+  { rewrite strip_run_filter. apply NoDup_keys_filter. exact Hnd. }
+  apply dict_get_same_members.
+  - eapply NoDup_keys_perm; [apply Permutation_rev|exact Hnd].
+  - eapply NoDup_keys_perm; [apply Permutation_rev|].
+    eapply NoDup_keys_perm; [apply Permutation_sym, sort_pairs_perm|exact Nf].
+  - intros v. rewrite <- !in_rev. split.
+    + intros H. eapply Permutation_in; [apply Permutation_sym, sort_pairs_perm|].
+      rewrite strip_run_filter. apply filter_In. split; [exact H|]. cbn [fst]. rewrite local_key_kept. reflexivity.
+    + intros H. apply sort_pairs_in in H. rewrite strip_run_filter in H. apply filter_In in H. tauto.
+Qed.
+
+Lemma ident_fields n n' : ident n' = ident n ->
+  get_name n' = get_name n /\ get_kind n' = get_kind n /\ get_namespace n' = get_namespace n /\
+  get_api_version n' = get_api_version n.
+Proof. unfold ident. intros H. inversion H. auto. Qed.
+
+Lemma validated_stripped n : validated_meta_ok (strip_node n) = validated_meta_ok n.
+Proof.
+  destruct (ident_fields _ _ (strip_node_ident n)) as (N & K & _). unfold validated_meta_ok. rewrite N, K. reflexivity.
+Qed.
+
+Lemma validated_not_empty n : validated_meta_ok n = true -> nil_or_empty n = false.
+Proof.
+  unfold validated_meta_ok. intros H. apply andb_true_iff in H as [H _]. apply negb_true_iff in H.
+  destruct n as [t s v|kvs|es]; try reflexivity.
+  - destruct t; try reflexivity. cbn in H. discriminate.
+  - destruct kvs; [cbn in H; discriminate|reflexivity].
+  - destruct es; [cbn in H; discriminate|reflexivity].
+Qed.
+
+Lemma strip_not_empty n : validated_meta_ok n = true -> nil_or_empty (strip_node n) = false.
+Proof. intros H. apply validated_not_empty. rewrite validated_stripped. exact H. Qed.
+
+(* ----- what IgnoreLocal leaves ----- *)
+
+Lemma raw_eqb_eq a b : resid_raw_eqb a b = true -> a = b.
+Proof.
+  destruct a as [[g v k c] n s], b as [[g' v' k' c'] n' s']. unfold resid_raw_eqb. cbn.
+  rewrite !andb_true_iff, !String.eqb_eq. intros [[[[[N S] G] V] K] C]. apply Bool.eqb_prop in C. congruence.
+Qed.
+
+Lemma raw_eqb_refl a : resid_raw_eqb a a = true.
+Proof. unfold resid_raw_eqb. rewrite !String.eqb_refl. destruct (g_cs (id_gvk a)); reflexivity. Qed.
+
+Lemma rid_kind r : g_kind (id_gvk (rid r)) = get_kind (r_node r).
+Proof. unfold cur_id, cur_gvk. cbn. destruct (parse_group_version _). reflexivity. Qed.
+
+Lemma rid_validated a b : rid a = rid b -> validated_meta_ok (r_node a) = validated_meta_ok (r_node b).
+Proof.
+  intros E. unfold validated_meta_ok. rewrite <- !rid_kind, E.
+  assert (N : get_name (r_node a) = get_name (r_node b)) by (change (id_name (rid a) = id_name (rid b)); rewrite E; reflexivity).
+  rewrite N. reflexivity.
+Qed.
+
+Lemma remove_loop_spec ids kept : forall cur out,
+  remove_loop ids kept cur = Ok out ->
+  (forall r, In r out -> In r cur) /\
+  (forall r, In r out -> In (rid r) ids -> existsb (resid_raw_eqb (rid r)) kept = true) /\
+  (forall r, In r cur -> existsb (resid_raw_eqb (rid r)) kept = true -> In r out).
+Proof.
+  induction ids as [|id t IH]; intros cur out H; cbn [remove_loop] in H.
+  - inv H. repeat split; auto; try (intros r _ []).
+  - destruct (existsb (resid_raw_eqb id) kept) eqn:E.
+    + destruct (IH _ _ H) as (A & B & C). repeat split; auto.
+      intros r Hr [<-|Hi]; [exact E|auto].
+    + destruct (Nat.eqb _ _); [|discriminate].
+      destruct (IH _ _ H) as (A & B & C). repeat split.
+      * intros r Hr. apply A in Hr. apply filter_In in Hr. tauto.
+      * intros r Hr [Hid|Hi]; [|auto].
+        apply A in Hr. apply filter_In in Hr as [_ Hr]. rewrite Hid, raw_eqb_refl in Hr. discriminate.
+      * intros r Hr Hk. apply C; [|exact Hk]. apply filter_In. split; [exact Hr|].
+        apply negb_true_iff. destruct (resid_raw_eqb (rid r) id) eqn:X; [|reflexivity].
+        apply raw_eqb_eq in X. subst id. congruence.
+Qed.
+
+(* every resource that survives IgnoreLocal has the id of a kept (non-empty, validated, non-local) resource,
+   and every kept resource survives *)
+Lemma ignore_local_spec m out :
+  ignore_local m = Ok out ->
+  (forall r, In r out -> In r m) /\
+  (forall r, In r out -> exists k, In k m /\ rid k = rid r /\ validated_meta_ok (r_node k) = true /\
+                                   is_local (r_node k) = false /\ In k out) .
+Proof.
+  unfold ignore_local. intros H.
+  destruct (forallb _ _) eqn:V; cbn [negb] in H; [|discriminate].
+  destruct (append_all cs [] _) as [x| | |]; try discriminate.
+  destruct (remove_loop_spec _ _ _ _ H) as (A & B & C). split; [exact A|].
+  intros r Hr.
+  assert (Hid : In (rid r) (map rid m)) by (apply in_map; auto).
+  pose proof (B r Hr Hid) as E. apply existsb_exists in E as (kid & Hk & Ek).
+  apply in_map_iff in Hk as (k & <- & Hk). apply raw_eqb_eq in Ek.
+  apply filter_In in Hk as [Hk L]. apply filter_In in Hk as [Hk Em].
+  rewrite forallb_forall in V.
+  exists k. repeat split; auto.
+  - apply V. apply filter_In. auto.
+  - apply negb_true_iff in L. exact L.
+  - apply C; [exact Hk|]. apply existsb_exists. exists (rid k). split; [|apply raw_eqb_refl].
+    apply in_map. apply filter_In. split; [apply filter_In; auto|exact L].
+Qed.
+
+Lemma distinct_in_eq m a b :
+  distinct_ids m -> In a m -> In b m -> id_equals (rid a) (rid b) = true -> a = b.
+Proof.
+  induction m as [|x t IH]; cbn; intros D Ha Hb E; [destruct Ha|]. destruct D as [D1 D2].
+  destruct Ha as [<-|Ha], Hb as [<-|Hb]; auto.
+  - rewrite (D1 _ Hb) in E. discriminate.
+  - rewrite id_equals_sym, (D1 _ Ha) in E. discriminate.
+Qed.
+
+Lemma id_equals_refl_rid r : id_equals (rid r) (rid r) = true.
+Proof.
+  unfold id_equals, id_ns_equals, id_gvkn_equals, gvk_equals. rewrite !String.eqb_refl. reflexivity.
+Qed.
+
+(* with distinct ids IgnoreLocal leaves validated, non-local resources only *)
+Lemma ignore_local_clean m out :
+  ignore_local m = Ok out ->
+  (forall r, In r out -> validated_meta_ok (r_node r) = true) /\
+  (distinct_ids out -> forall r, In r out -> is_local (r_node r) = false).
+Proof.
+  intros H. destruct (ignore_local_spec _ _ H) as [A B]. split.
+  - intros r Hr. destruct (B r Hr) as (k & _ & E & V & _). rewrite <- (rid_validated k r E). exact V.
+  - intros D r Hr. destruct (B r Hr) as (k & _ & E & _ & L & Hk).
+    assert (k = r). { apply (distinct_in_eq out); auto. rewrite E. apply id_equals_refl_rid. }
+    subst k. exact L.
+Qed.
+
+(* ----- the legacy sort on an already sorted list ----- *)
+
+Fixpoint adj_less {A} (less : A -> A -> bool) (l : list A) : Prop :=
+  match l with
+  | [] => True
+  | x :: t => match t with
+              | [] => True
+              | y :: _ => less x y = true
+              end /\ adj_less less t
+  end.
+
+Lemma isort_adj_id {A} (less : A -> A -> bool) l : adj_less less l -> isort less l = l.
+Proof.
+  induction l as [|x t IH]; cbn [isort adj_less]; [reflexivity|]. intros [Hx Ht]. rewrite (IH Ht).
+  destruct t as [|y t']; [reflexivity|]. cbn [insert]. rewrite Hx. reflexivity.
+Qed.
+
+Lemma res_less_rid first last a b a' b' :
+  rid a' = rid a -> rid b' = rid b -> res_less first last a' b' = res_less first last a b.
+Proof. intros Ea Eb. unfold res_less, rid_of. rewrite Ea, Eb. reflexivity. Qed.
+
+(* the legacy order decides every pair of resources with different ids (true when the ids are valid for the order:
+   LegacySortProofs.less_total) *)
+Definition order_total (first last : list string) (m : list resource) : Prop :=
+  forall a b, In a m -> In b m -> id_equals (rid a) (rid b) = false ->
+              res_less first last a b = true \/ res_less first last b a = true.
+
+Lemma weakly_adj first last m :
+  weakly_sorted (res_less first last) m -> distinct_ids m -> order_total first last m ->
+  adj_less (res_less first last) m.
+Proof.
+  unfold weakly_sorted. induction m as [|x t IH]; cbn [adj_less]; [auto|].
+  intros S [D1 D2] T. inversion S as [|? ? St Hd]; subst. split.
+  - destruct t as [|y t']; [exact I|]. inversion Hd as [|? ? Hyx]; subst. cbv beta in Hyx.
+    assert (Hxy : id_equals (rid x) (rid y) = false) by (apply D1; cbn; auto).
+    destruct (T x y (or_introl eq_refl) (or_intror (or_introl eq_refl)) Hxy) as [H|H]; [exact H|congruence].
+  - apply IH; auto. intros a b Ha Hb. apply T; cbn; auto.
+Qed.
+
+Lemma adj_less_map first last (g : resource -> resource) m :
+  (forall r, rid (g r) = rid r) -> adj_less (res_less first last) m -> adj_less (res_less first last) (map g m).
+Proof.
+  intros Hg. induction m as [|x t IH]; cbn [map adj_less]; [auto|]. intros [Hx Ht]. split; [|auto].
+  destruct t as [|y t']; cbn [map]; [exact I|]. rewrite (res_less_rid first last x y (g x) (g y)); auto.
+Qed.
+
+Lemma sorted_after_legacy first last m2l m3 :
+  sort_resources (PSortLegacy first last) m2l = Ok m3 -> order_total first last m3 ->
+  distinct_ids m3 /\ Permutation m3 m2l /\ adj_less (res_less first last) m3.
+Proof.
+  cbn [sort_resources]. intros H T. apply append_all_spec in H as [E D]. cbn [app] in E.
+  specialize (D I). split; [exact D|]. split; [rewrite E; apply isort_perm|].
+  apply weakly_adj; auto. rewrite E. apply isort_sorted.
+  intros a b _ _. unfold res_less. apply LegacySortProofs.less_asym.
+Qed.
+
+(* ----- the second build ----- *)
+
+Section Fix.
+  Variable nonstr : string -> bool.
+
+  (* a kustomization without directives whose only resources entry is one file with these documents *)
+  Definition leaf (name : string) (docs : list node) : ptree := PDir name no_dirs [PFile docs].
+
+  (* the documents handed to the final annotation removal *)
+  Definition build_pre (o : psort) (t : ptree) : res (list node) :=
+    match t with
+    | PFile _ => Err
+    | PDir _ _ _ =>
+        do m <- accumulate nonstr t;
+        do m1 <- mapM (hash_res nonstr) m;
+        do rules <- pipe_rules;
+        do m2 <- nameref_transform pipe_cs nonstr rules m1;
+        do m2l <- ignore_local m2;
+        do m3 <- sort_resources o m2l;
+        Ok (map r_node m3)
+    end.
+
+  Lemma build_pre_spec o t : build nonstr o t = do pre <- build_pre o t; Ok (map strip_node pre).
+  Proof.
+    unfold build, build_pre. destruct t as [docs|n d ents]; [reflexivity|].
+    destruct (accumulate nonstr (PDir n d ents)) as [m| | |]; cbn [bind]; try reflexivity.
+    destruct (mapM (hash_res nonstr) m) as [m1| | |]; cbn [bind]; try reflexivity.
+    destruct pipe_rules as [rules| | |]; cbn [bind]; try reflexivity.
+    destruct (nameref_transform pipe_cs nonstr rules m1) as [m2| | |]; cbn [bind]; try reflexivity.
+    destruct (ignore_local m2) as [m2l| | |]; cbn [bind]; try reflexivity.
+    destruct (sort_resources o m2l) as [m3| | |]; cbn [bind]; try reflexivity.
+    rewrite map_map. reflexivity.
+  Qed.
+
+  Lemma distinct_loaded docs : distinct_node_ids docs -> distinct_ids (map load docs).
+  Proof.
+    induction docs as [|n t IH]; cbn; [auto|]. intros [H1 H2]. split; [|auto].
+    intros x Hx. apply in_map_iff in Hx as (y & <- & Hy). apply (H1 y Hy).
+  Qed.
+
+  Lemma drop_empties_loaded docs :
+    (forall n, In n docs -> nil_or_empty n = false) -> drop_empties (map load docs) = map load docs.
+  Proof.
+    intros H. unfold drop_empties. apply filter_all_true. intros r Hr. apply in_map_iff in Hr as (n & <- & Hn).
+    cbn [r_node load]. rewrite (H n Hn). reflexivity.
+  Qed.
+
+  Lemma accumulate_leaf name docs :
+    distinct_node_ids docs -> (forall n, In n docs -> nil_or_empty n = false) ->
+    accumulate nonstr (leaf name docs) = Ok (map load docs).
+  Proof.
+    intros D NE. unfold leaf. rewrite (accumulate_dir nonstr name no_dirs). cbn [is_empty_kust].
+    rewrite acc_list_cons. cbn [accumulate].
+    pose proof (append_all_ok (map load docs) [] (distinct_loaded docs D)) as A. cbn [app] in A.
+    rewrite A. cbn [bind]. rewrite A. cbn [bind acc_list].
+    rewrite run_generators_none. cbn [bind]. rewrite run_transformers_none.
+    rewrite drop_empties_loaded by exact NE. reflexivity.
+  Qed.
+
+  Lemma hash_loaded docs : mapM (hash_res nonstr) (map load docs) = Ok (map load docs).
+  Proof. induction docs as [|n t IH]; cbn [map mapM]; [reflexivity|]. cbn. cbn in IH. rewrite IH. reflexivity. Qed.
+
+  Lemma remove_loop_all_kept ids kept cur :
+    (forall id, In id ids -> existsb (resid_raw_eqb id) kept = true) -> remove_loop ids kept cur = Ok cur.
+  Proof.
+    induction ids as [|id t IH]; cbn [remove_loop]; intros H; [reflexivity|].
+    rewrite (H id (or_introl eq_refl)). apply IH. intros i Hi. apply H. right. exact Hi.
+  Qed.
+
+  Lemma ignore_local_loaded docs :
+    distinct_node_ids docs ->
+    (forall n, In n docs -> validated_meta_ok n = true) ->
+    (forall n, In n docs -> is_local n = false) ->
+    ignore_local (map load docs) = Ok (map load docs).
+  Proof.
+    intros D V L. unfold ignore_local.
+    assert (F1 : filter (fun r => negb (nil_or_empty (r_node r))) (map load docs) = map load docs).
+    { apply filter_all_true. intros r Hr. apply in_map_iff in Hr as (n & <- & Hn). cbn [r_node load].
+      rewrite (validated_not_empty n (V n Hn)). reflexivity. }
+    rewrite F1.
+    assert (F2 : forallb (fun r => validated_meta_ok (r_node r)) (map load docs) = true).
+    { apply forallb_forall. intros r Hr. apply in_map_iff in Hr as (n & <- & Hn). cbn [r_node load]. auto. }
+    rewrite F2. cbn [negb].
+    assert (F3 : filter (fun r => negb (is_local (r_node r))) (map load docs) = map load docs).
+    { apply filter_all_true. intros r Hr. apply in_map_iff in Hr as (n & <- & Hn). cbn [r_node load].
+      rewrite (L n Hn). reflexivity. }
+    rewrite F3.
+    pose proof (append_all_ok (map load docs) [] (distinct_loaded docs D)) as A. cbn [app] in A. rewrite A.
+    apply remove_loop_all_kept. intros id Hid. apply existsb_exists. exists id. split; [exact Hid|apply raw_eqb_refl].
+  Qed.
+
+  (* what the first build guarantees about the documents it hands to the final strip *)
+  Lemma build_pre_facts o t pre :
+    build_pre o t = Ok pre ->
+    exists m3, pre = map r_node m3 /\
+      (forall r, In r m3 -> validated_meta_ok (r_node r) = true) /\
+      (distinct_ids m3 -> forall r, In r m3 -> is_local (r_node r) = false) /\
+      (forall first last, o = PSortLegacy first last -> order_total first last m3 ->
+         distinct_ids m3 /\ adj_less (res_less first last) m3).
+  Proof.
+    unfold build_pre. destruct t as [docs|n d ents]; [discriminate|].
+    destruct (accumulate nonstr (PDir n d ents)) as [m| | |]; cbn [bind]; try discriminate.
+    destruct (mapM (hash_res nonstr) m) as [m1| | |]; cbn [bind]; try discriminate.
+    destruct pipe_rules as [rules| | |]; cbn [bind]; try discriminate.
+    destruct (nameref_transform pipe_cs nonstr rules m1) as [m2| | |]; cbn [bind]; try discriminate.
+    destruct (ignore_local m2) as [m2l| | |] eqn:EI; cbn [bind]; try discriminate.
+    destruct (sort_resources o m2l) as [m3| | |] eqn:ES; cbn [bind]; try discriminate.
+    intros H. inv H. exists m3. split; [reflexivity|].
+    destruct (ignore_local_clean _ _ EI) as [V L].
+    assert (P : Permutation m3 m2l).
+    { destruct o as [| |first last]; cbn [sort_resources] in ES; try (inv ES; apply Permutation_refl).
+      apply append_all_spec in ES as [E _]. cbn [app] in E. rewrite E. apply isort_perm. }
+    repeat split.
+    - intros r Hr. apply V. eapply Permutation_in; eauto.
+    - intros D r Hr. apply L; [|eapply Permutation_in; eauto].
+      eapply distinct_ids_perm; eauto.
+    - subst o. destruct (sorted_after_legacy _ _ _ _ ES H0) as (D & _ & _). exact D.
+    - subst o. destruct (sorted_after_legacy _ _ _ _ ES H0) as (_ & _ & A). exact A.
+  Qed.
+
+  (* the guards, all stated on what the first build hands to its final strip ([pre]) and on its output:
+     - [meta_clean]: metadata has one annotations field with distinct keys (every parsed YAML document);
+     - legacy order: the order decides every pair of distinct output ids (C11's valid ids);
+       other orders: the output ids are pairwise distinct and no output carries local-config - EXACTLY what the
+       C07 finding (a local-config resource named like a hashed generated one) violates;
+     - the name-reference pass of the second build leaves the loaded documents alone. *)
+  Definition node_order_total (first last : list string) (docs : list node) : Prop :=
+    order_total first last (map load docs).
+
+  Theorem build_fixpoint o t pre rules name :
+    build_pre o t = Ok pre ->
+    Forall meta_clean pre ->
+    let outs := map strip_node pre in
+    (match o with
+     | PSortLegacy first last => node_order_total first last outs
+     | _ => distinct_node_ids outs /\ forall n, In n outs -> is_local n = false
+     end) ->
+    pipe_rules = Ok rules ->
+    nameref_transform pipe_cs nonstr rules (map load outs) = Ok (map load outs) ->
+    build nonstr o (leaf name outs) = Ok outs.
+  Proof.
+    intros Hpre Hclean outs G ER Hnr.
+    destruct (build_pre_facts _ _ _ Hpre) as (m3 & -> & V & L & Hleg).
+    rewrite Forall_forall in Hclean.
+    assert (Eouts : outs = map (fun r => strip_node (r_node r)) m3) by (unfold outs; rewrite map_map; reflexivity).
+    assert (Eload : map load outs = map (fun r => load (strip_node (r_node r))) m3)
+      by (rewrite Eouts, map_map; reflexivity).
+    assert (Hg : forall r, rid (load (strip_node (r_node r))) = rid r) by (intros r; apply node_rid_strip).
+    (* the first build's map, as far as needed *)
+    assert (T3 : forall first last, o = PSortLegacy first last -> order_total first last m3).
+    { intros first last ->. intros a b Ha Hb Hab. unfold node_order_total in G.
+      rewrite <- (res_less_rid first last a b _ _ (Hg a) (Hg b)), <- (res_less_rid first last b a _ _ (Hg b) (Hg a)).
+      apply G; [rewrite Eload; apply (in_map (fun r => load (strip_node (r_node r)))); exact Ha
+               |rewrite Eload; apply (in_map (fun r => load (strip_node (r_node r)))); exact Hb|].
+      rewrite !Hg. exact Hab. }
+    assert (D3 : distinct_ids m3).
+    { destruct o as [| |first last].
+      - destruct G as [G _]. rewrite Eouts in G. clear -G Hg.
+        induction m3 as [|x t IH]; cbn in *; [auto|]. destruct G as [G1 G2]. split; [|auto].
+        intros y Hy. specialize (G1 (strip_node (r_node y)) (in_map _ _ _ Hy)). unfold node_rid in G1.
+        rewrite !Hg in G1. exact G1.
+      - destruct G as [G _]. rewrite Eouts in G. clear -G Hg.
+        induction m3 as [|x t IH]; cbn in *; [auto|]. destruct G as [G1 G2]. split; [|auto].
+        intros y Hy. specialize (G1 (strip_node (r_node y)) (in_map _ _ _ Hy)). unfold node_rid in G1.
+        rewrite !Hg in G1. exact G1.
+      - destruct (Hleg first last eq_refl (T3 _ _ eq_refl)) as [D _]. exact D. }
+    assert (Douts : distinct_node_ids outs) by (rewrite Eouts; apply distinct_ids_strip; exact D3).
+    assert (Vouts : forall n, In n outs -> validated_meta_ok n = true).
+    { intros n Hn. rewrite Eouts in Hn. apply in_map_iff in Hn as (r & <- & Hr). rewrite validated_stripped. auto. }
+    assert (Louts : forall n, In n outs -> is_local n = false).
+    { intros n Hn. rewrite Eouts in Hn. apply in_map_iff in Hn as (r & <- & Hr).
+      rewrite is_local_stripped; [apply (L D3 r Hr)|]. apply Hclean. apply in_map. exact Hr. }
+    assert (NEouts : forall n, In n outs -> nil_or_empty n = false) by (intros n Hn; apply validated_not_empty; auto).
+    (* the second build, step by step *)
+    unfold build. unfold leaf at 1.
+    change (PDir name no_dirs [PFile outs]) with (leaf name outs).
+    rewrite (accumulate_leaf name outs Douts NEouts). cbn [bind].
+    rewrite hash_loaded. cbn [bind]. rewrite ER. cbn [bind]. rewrite Hnr. cbn [bind].
+    rewrite (ignore_local_loaded outs Douts Vouts Louts). cbn [bind].
+    assert (Hsort : sort_resources o (map load outs) = Ok (map load outs)).
+    { destruct o as [| |first last]; cbn [sort_resources]; try reflexivity.
+      destruct (Hleg first last eq_refl (T3 _ _ eq_refl)) as [_ A].
+      rewrite (isort_adj_id (res_less first last) (map load outs)).
+      - pose proof (append_all_ok (map load outs) [] (distinct_loaded outs Douts)) as X. cbn [app] in X. exact X.
+      - rewrite Eload. apply adj_less_map; [exact Hg|exact A]. }
+    rewrite Hsort. cbn [bind]. f_equal.
+    rewrite map_map. cbn [r_node load]. unfold outs. rewrite map_map.
+    apply map_ext_in. intros n Hn. apply strip_node_idem. apply Hclean. exact Hn.
+  Qed.
+End Fix.
